@@ -6,7 +6,8 @@ CHECKS = {
         text='Bounded symbolic model checking of the real precedence parser: every chain of 1..3 (quick) / 1..4 (thorough) binary operators, '
              'operator kinds symbolic, is executed from the working tree\'s MIR; on every path z3 decides that the resulting tree is the '
              'grouping the published table prescribes. Right level because the property is a finite-structure claim over an 18-symbol alphabet: '
-             'the solver covers all 18^n chains per length, which the ~20 sampled chains of the test suite cannot.',
+             'the solver covers all 18^n chains per length, which the ~20 sampled chains of the test suite cannot. Second family (tokens): the real statement parser on token lists whose operator tokens carry symbolic '
+             'fragment bytes between 22 compound operand forms (grouped, list, call, select, `not ...`): each operator is the one spelled, the grouping is the table\'s and does not depend on the operand forms.',
         design_ref='DESIGN.md 4/C02',
         note='Trusted: rustc MIR dump = the code; std/alloc calls on the path are abstract-datatype builtins (evidence lists them); '
              'oracle = table parsed from docsite reference at run time. Outside: chains longer than the bound, operand parsing.',
@@ -55,7 +56,7 @@ CHECKS['C18'] = dict(
          'strict and non-strict: z3 decides that a set variable evaluates byte-for-byte to its value, an unset one is NULL (non-strict) or an error that names it (strict); disclosure of other '
          'variables is decided as taint on the error value (format! arguments are kept); `let env` is rejected and a field named env selects the field.',
     design_ref='DESIGN.md 4/C18',
-    note='Trusted: MIR = code; std builtins. Outside: capture of the OS environment in main, non-UTF-8 values, unusual names.',
+    note='Trusted: MIR = code; std builtins. Family main runs the binary\'s real main() (clap and home_dir stubbed, std::env::vars yields the harness environment with values of 0..2 symbolic bytes). Outside: non-UTF-8 values, unusual names in family main.',
     technique='symbolic execution of rustc MIR with symbolic environment values; equality by z3, disclosure by taint on the error value (bounded: variables, bytes)')
 CHECKS['C13'] = dict(
     category='model_checking',
@@ -63,7 +64,7 @@ CHECKS['C13'] = dict(
          'from MIR for 1..3 files with 0..3 assertions each in every combination of forms (true/false symbolic, malformed, preceded/followed by a build error); per path z3-determined outcomes '
          'give the reference verdicts: Pass iff the file builds and all its own assertions hold, every assertion exactly once in that file\'s log, exit(1) iff some file failed, independent of earlier files.',
     design_ref='DESIGN.md 4/C13',
-    note='Trusted: MIR = code; virtual file system, stdout and process::exit stubs; clap::ArgMatches stand-in. Outside: directory recursion, other stdout layout.',
+    note='Trusted: MIR = code; virtual file system, stdout and process::exit stubs; clap::ArgMatches stand-in. Directory trees under -r with the listing order a symbolic permutation; two test files sharing an import (relational). Outside: other stdout layout.',
     technique='symbolic execution of the binary crate\'s MIR with symbolic assertion outcomes; z3 decides outcomes per path; replay with the real ucg binary (bounded: files, assertions)')
 CHECKS['C14'] = dict(
     category='model_checking',
